@@ -42,8 +42,10 @@ ASSUMPTIONS = ["documented renaming: score, subtomo_id->subtomo_num, tomo_id->to
 
 CLASSES = ["n1", "unsorted_ids", "sparse_ids", "single_parity", "duplicate_ids", "arbitrary_floats", "star_ties",
            "int_dtypes", "permuted_columns", "filtered_index", "object_after_filter", "foreign_star", "foreign_frame", "via_em_file",
-           "half_integer_positions", "object_copy", "n300", "boundary_sizes", "mutation_history"]
+           "half_integer_positions", "object_copy", "n300", "boundary_sizes", "mutation_history",
+           "constant_columns", "layouts_dtypes", "chained_objects"]
 CANON = gens.COLS
+INCLUDE_FLOAT32 = False
 ROUTES = ["StopgapMotl(df).write_out", "StopgapMotl(StopgapMotl).write_out", "Motl.load(df,stopgap).write_out",
           "emmotl2stopgap(df,path)", "emmotl2stopgap(EmMotl,path)", "Motl(df).write_out(path,stopgap)"]
 
@@ -51,17 +53,17 @@ ROUTES = ["StopgapMotl(df).write_out", "StopgapMotl(StopgapMotl).write_out", "Mo
 def plan(tier):
     # min_evals: core.py requires HALF of the stated figure.  For the three call monitors (sg_export, sg_import,
     # write_out_file) the stated figure is 1.6 x 80% of what the driver's own DIRECT calls produce with the monitors blind to
-    # cryoCAT-internal callers (VERIF_BYPASS_INTERNAL=1: quick 914-917 / 958-960 / 1153-1174, thorough 16659 / 17514 / 19917), so
+    # cryoCAT-internal callers (VERIF_BYPASS_INTERNAL=1: quick 1009-1010 / 1077-1080 / 1301-1310, thorough 18584 / 19906 / 23163), so
     # the floor holds whatever cryoCAT's internal call structure is.  Driver monitors: ~85% of the measured counts.
     if tier == "quick":
         return dict(n_cases=len(CLASSES) * 4 * 6, shards=4, classes=CLASSES, timeout_s=600,
-                    min_evals={"sg_export": 1170, "sg_import": 1225, "write_out_file": 1475, "star_fields": 1270,
-                               "star_halfset_idx": 1270, "update_coord": 1400, "star_reload": 1320, "inmem_roundtrip": 815,
-                               "converters": 1330})
+                    min_evals={"sg_export": 1290, "sg_import": 1375, "write_out_file": 1665, "star_fields": 1465,
+                               "star_halfset_idx": 1465, "update_coord": 1615, "star_reload": 1530, "inmem_roundtrip": 920,
+                               "converters": 1520})
     return dict(n_cases=len(CLASSES) * 4 * 120, shards=16, classes=CLASSES, timeout_s=3000,
-                min_evals={"sg_export": 21300, "sg_import": 22400, "write_out_file": 25400, "star_fields": 22700,
-                           "star_halfset_idx": 22700, "update_coord": 25400, "star_reload": 25000, "inmem_roundtrip": 14900,
-                           "converters": 23900})
+                min_evals={"sg_export": 23700, "sg_import": 25400, "write_out_file": 29600, "star_fields": 26600,
+                           "star_halfset_idx": 26600, "update_coord": 29200, "star_reload": 29100, "inmem_roundtrip": 17000,
+                           "converters": 27500})
 
 
 # ---- call monitors (Layer A) ---------------------------------------------------------------------
@@ -298,6 +300,8 @@ def gen(ctx, i, cls):
         n = int(rng.choice([63, 64, 65, 127, 128, 129, 255, 256, 257, 299, 300]))
     elif cls == "mutation_history":
         n = int(rng.choice([2, 3, 8, 33, 65, 120]))
+    elif cls == "constant_columns" and rng.random() < 0.3:
+        n = 1
     df = gens.motl_table(rng, n, tomos=int(rng.integers(1, 5)), signed=bool(rng.integers(0, 2)))
     style = str(rng.choice(["perm_offset", "sparse", "large", "descending"]))
     if cls == "unsorted_ids":
@@ -363,6 +367,41 @@ def gen(ctx, i, cls):
         planted = _plant(rng, df, n, fields_first_row=(cls != "half_integer_positions" or rng.random() < 0.5))
     elif cls == "n1" and rng.random() < 0.6:
         planted = _plant(rng, df, 1)
+    layout = None
+    if cls == "layouts_dtypes":
+        # the SHAPE of the table: backing-array layouts and narrow dtypes; expected values = the values the table holds.
+        # float32-typed lists are NOT generated: on the unchanged tree update_coordinates raises for them (Decimal(np.float32))
+        # and Starfile.write rounds/prints them in float32 (error ~1 float32 ulp > STAR tolerance).  Both reported to the lead
+        # (round 6) and kept out until ruled; set INCLUDE_FLOAT32 = True to judge them.
+        opts = ["fortran", "transposed_view", "negative_stride", "noncontig_slice", "readonly", "int_positions", "int_angles", "int_all"]
+        if INCLUDE_FLOAT32:
+            opts += ["float32", "float32"]
+        layout = str(rng.choice(opts))
+        if layout == "float32":
+            df["subtomo_id"] = _ids(rng, n, "sparse").astype(float)
+            df = df.astype(np.float32).astype(np.float64)
+        if layout in ("int_positions", "int_all"):
+            for c in O.POS:
+                df[c] = np.round(df[c])
+        if layout in ("int_angles", "int_all"):
+            for c in ("phi", "psi", "theta"):
+                df[c] = rng.integers(-128, 128, n).astype(float)
+        values = "layout:" + layout
+    const = None
+    if cls == "constant_columns":
+        # value-specific semantics: columns that hold one value for EVERY particle (class 0 = never classified, score 0, ...)
+        mode = str(rng.choice(["class0", "class0", "class0_score0", "shifts0", "all_zero", "single_value", "angles0_class0"]))
+        cols = {"class0": ["class"], "class0_score0": ["class", "score"], "shifts0": list(O.SHIFT) + ["class"],
+                "all_zero": list(NONID), "angles0_class0": ["phi", "psi", "theta", "class"],
+                "single_value": [c for c in NONID if rng.random() < 0.5] or ["class"]}[mode]
+        val = 0.0 if mode != "single_value" else float(rng.choice([0.0, 1.0, -0.0, 2.0, -1.0, 0.5]))
+        for c in cols:
+            df[c] = val
+        const = {"mode": mode, "value": val, "columns": cols}
+        values = "constant:" + mode
+    elif cls not in ("via_em_file", "layouts_dtypes") and rng.random() < (0.5 if cls == "n1" else 0.15):
+        df["class"] = 0.0              # unclassified list / single class-0 particle, in every other class too
+        values += "+class0"
     order = list(CANON)
     if cls == "permuted_columns" or (cls in ("filtered_index", "object_after_filter", "int_dtypes") and rng.random() < 0.4):
         order = [CANON[k] for k in rng.permutation(20)]
@@ -374,7 +413,9 @@ def gen(ctx, i, cls):
             int_cols += ["x", "y", "z"]
     index_kind = "range"
     if cls == "filtered_index":
-        index_kind = str(rng.choice(["odd", "dup", "shifted", "float"]))
+        index_kind = str(rng.choice(["odd", "dup", "shifted", "float", "concat", "concat", "reversed"]))
+    elif cls in ("chained_objects", "constant_columns", "boundary_sizes") and rng.random() < 0.4:
+        index_kind = str(rng.choice(["concat", "reversed", "dup"]))
     routes = list(range(len(ROUTES)))
     if cls == "object_copy":
         routes = [1, 4, 2]
@@ -405,11 +446,15 @@ def gen(ctx, i, cls):
         route = "StopgapMotl(df) then %s then write_out" % variant
     ids = df["subtomo_id"].to_numpy()
     case = {"i": i, "cls": cls, "df": df, "order": order, "int_cols": int_cols, "index_kind": index_kind, "route": route,
-            "reset": reset, "upd": upd, "foreign": foreign, "variant": variant,
+            "reset": reset, "upd": upd, "foreign": foreign, "variant": variant, "layout": layout,
+            "flag_kind": ["py", "np", "np", "py", "py", "np"][(i // (4 * ncls)) % 6],
+            "path_kind": ["plain", "ext_letters", "special", "nonascii", "subdir", "relative", "relative_subdir"][int(rng.integers(0, 7))],
+            "attrs": bool(rng.random() < 0.3),
             "sequential": bool(np.array_equal(ids, np.arange(1, n + 1)))}
     case["summary"] = {"n": n, "class": cls, "route": route, "reset_index": reset, "update_coord": upd, "id_style": style,
+                       "flag_kind": case["flag_kind"], "path_kind": case["path_kind"],
                        "values": values, "ids_head": [float(v) for v in ids[:6]], "index": index_kind,
-                       "column_order": order[:6], "int_cols": int_cols, "foreign": foreign, "planted": planted[:8],
+                       "column_order": order[:6], "int_cols": int_cols, "foreign": foreign, "planted": planted[:8], "layout": layout, "constant": const,
                        "row0": {k: float(df[k].iloc[0]) for k in ("score", "x", "shift_x", "psi", "theta", "class")}}
     return case
 
@@ -420,9 +465,38 @@ def nontrivial(case):
 
 def build_input(case, rng):
     t = case["df"][case["order"]].copy()
+    lay = case.get("layout")
+    n = len(t)
+    if lay in ("fortran", "transposed_view", "negative_stride", "noncontig_slice", "readonly"):
+        arr = t.to_numpy(dtype=np.float64)
+        if lay == "fortran":
+            a = np.asfortranarray(arr)
+        elif lay == "transposed_view":
+            a = np.ascontiguousarray(arr.T).T
+        elif lay == "negative_stride":
+            a = arr[::-1].copy()[::-1]
+        elif lay == "noncontig_slice":
+            big = np.zeros((n, 2 * arr.shape[1]))
+            big[:, ::2] = arr
+            a = big[:, ::2]
+        else:
+            a = arr.copy()
+            a.setflags(write=False)
+        t = pd.DataFrame(a, columns=case["order"], copy=False)
+    elif lay == "float32":
+        t = t.astype(np.float32)
+    elif lay in ("int_positions", "int_angles", "int_all"):
+        if lay != "int_angles":
+            for c in O.POS:
+                t[c] = t[c].astype([np.int16, np.int32, np.int64][int(rng.integers(0, 3))])
+        if lay != "int_positions":
+            for c in ("phi", "psi", "theta"):
+                t[c] = t[c].astype([np.int8, np.int16][int(rng.integers(0, 2))])
+            for c in ("tomo_id", "object_id", "class"):
+                if np.all(np.abs(t[c]) < 128) and np.all(t[c] == np.round(t[c])):
+                    t[c] = t[c].astype(np.int8)
     for c in case["int_cols"]:
         t[c] = t[c].astype(np.int64 if rng.random() < 0.6 else np.int32)
-    n = len(t)
     k = case["index_kind"]
     if k == "odd":
         t.index = rng.permutation(n) * 3 + 7
@@ -432,6 +506,14 @@ def build_input(case, rng):
         t.index = np.arange(n) + int(rng.integers(1, 50))
     elif k == "float":
         t.index = rng.permutation(n).astype(float) + 0.5
+    elif k == "concat" and n >= 2:
+        # what pd.concat of two lists without ignore_index leaves behind: labels 0..a-1 followed by 0..b-1
+        a = int(rng.integers(1, n))
+        t = pd.concat([t.iloc[:a].reset_index(drop=True), t.iloc[a:].reset_index(drop=True)])
+    elif k == "reversed":
+        t.index = np.arange(n)[::-1]
+    if case.get("attrs"):
+        t.attrs = {"source": "tomo_\u00e9.star", "pixel_size": 1.35, "note": [1, 2, 3]}
     return t
 
 
@@ -453,6 +535,37 @@ def _check_file(ctx, path, E, updated, reset, stage):
         ctx.check("update_coord", w_u is None, dict(w_u, stage=stage + " (file)") if w_u else None)
     ctx.check("star_halfset_idx", w_h is None, dict(w_h, stage=stage) if w_h else None)
     return w_f is None and w_u is None
+
+
+def _fl(case, value):
+    """The flag as the caller passes it: a Python bool or a NumPy bool (np.False_ / np.True_, what idioms such as
+    df["subtomo_id"].duplicated().any() produce); both are in the quantifier reset_index / update_coord in {False, True}."""
+    return np.bool_(bool(value)) if case.get("flag_kind") == "np" else bool(value)
+
+
+def _path(ctx, case, rng, stem, ext=".star"):
+    """Output path of varying shape: stems ending in the letters of an extension, [ ] * ? blanks, non-ASCII characters,
+    a sub-directory, a path relative to the working directory (the shard's scratch directory)."""
+    kind = case.get("path_kind", "plain")
+    tag = "%s_%s" % (stem, case["i"])
+    if kind == "ext_letters":
+        name = tag + str(rng.choice(["_ribosomestar", "_frame.em", "_motl.star", "_listem", ".star.em"])) + ext
+    elif kind == "special":
+        name = tag + " a b [1] *?" + ext
+    elif kind == "nonascii":
+        name = tag + "_\u00dcn\u00ef_\u7c92\u5b50" + ext
+    elif kind == "subdir":
+        d = os.path.join(ctx.scratch, "sub dir", "x.star")
+        os.makedirs(d, exist_ok=True)
+        return os.path.join(d, tag + ext)
+    elif kind == "relative":
+        return tag + ext
+    elif kind == "relative_subdir":
+        os.makedirs(os.path.join(ctx.scratch, "rel"), exist_ok=True)
+        return os.path.join("rel", tag + ext)
+    else:
+        name = tag + ext
+    return os.path.join(ctx.scratch, name)
 
 
 # ---- direct calls of the monitored public methods -------------------------------------------------
@@ -488,12 +601,12 @@ def _direct_export(ctx, df, reset, kw):
     return ctx.call("convert_to_sg_motl(df,reset)", cm.StopgapMotl.convert_to_sg_motl, df.copy(), reset)
 
 
-def _direct_write_out(ctx, m, E, updated, reset, tag, stage):
+def _direct_write_out(ctx, m, E, updated, reset, tag, stage, case=None):
     """obj.write_out(output_path=, update_coord=False, reset_index=) called by the driver on an object a converter returned;
     `updated` says whether the object already is in update_coord form.  Call monitor write_out_file + the driver's file checks."""
     p = os.path.join(ctx.scratch, "direct_%s.star" % tag)
-    ok, _ = ctx.call("obj.write_out(output_path=,update_coord=False,reset_index=)", m.write_out, output_path=p, update_coord=False,
-                     reset_index=reset)
+    ok, _ = ctx.call("obj.write_out(output_path=,update_coord=False,reset_index=)", m.write_out, output_path=p, update_coord=_fl(case or {}, False),
+                     reset_index=_fl(case or {}, reset))
     if ok and os.path.exists(p):
         _check_file(ctx, p, E, updated, reset, stage + " -> write_out")
     elif ok:
@@ -530,15 +643,15 @@ def _reload(ctx, case, path, E, updated):
 def _inmem(ctx, case, t, E, rng):
     """In-memory path: static export of the user's table, import of the result, converter on the result."""
     cm = ctx.cm
-    ok, sg = ctx.call("convert_to_sg_motl(df)", cm.StopgapMotl.convert_to_sg_motl, t, case["reset"])
+    ok, sg = ctx.call("convert_to_sg_motl(df)", cm.StopgapMotl.convert_to_sg_motl, t, _fl(case, case["reset"]))
     if not ok:
         return
     if rng.random() < 0.3 and isinstance(sg, pd.DataFrame):      # STOPGAP frame with permuted columns / odd row labels
         sg = sg[[sg.columns[k] for k in rng.permutation(len(sg.columns))]].copy()
         if rng.random() < 0.5:
-            sg.index = rng.permutation(len(sg)) * 2 + 3
+            sg.index = rng.permutation(len(sg)) * 2 + 3 if rng.random() < 0.5 else rng.integers(0, 2, len(sg))   # odd / repeated labels
     _direct_import(ctx, sg, E, "inmem_roundtrip", "exact", "StopgapMotl().convert_to_motl(convert_to_sg_motl(df))", kw=bool(rng.integers(0, 2)))
-    _direct_export(ctx, t, not case["reset"], kw=True)
+    _direct_export(ctx, t, _fl(case, not case["reset"]), kw=True)
     ok, back = ctx.call("StopgapMotl(sg_df)", cm.StopgapMotl, sg)
     if ok:
         _judge(ctx, "inmem_roundtrip", O.em_fields(back.df), E, False, "exact", stage="StopgapMotl(convert_to_sg_motl(df)).df")
@@ -557,7 +670,7 @@ def _inmem(ctx, case, t, E, rng):
         # an object built from a STOPGAP-form frame, exported unedited with the OPPOSITE reset flag: motl_idx in the file
         # has to follow the flag of this call, not the motl_idx the frame carried
         p3 = os.path.join(ctx.scratch, "reexport_%s.star" % case["i"])
-        ok, _ = ctx.call("StopgapMotl(sg_df).write_out", back.write_out, p3, False, not case["reset"])
+        ok, _ = ctx.call("StopgapMotl(sg_df).write_out", back.write_out, p3, _fl(case, False), _fl(case, not case["reset"]))
         if ok and os.path.exists(p3):
             _check_file(ctx, p3, E, False, not case["reset"], "StopgapMotl(sg_df).write_out(reset_index=%s)" % (not case["reset"]))
         _rm(p3)
@@ -586,7 +699,7 @@ def _export_via_route(ctx, case, t, E, path):
         if not ok:
             return False
         _judge(ctx, "converters", O.em_fields(m.df), E, False, "exact", stage=route.split(".write_out")[0] + ".df")
-        ok, _ = ctx.call("StopgapMotl.write_out", m.write_out, path, upd, reset)
+        ok, _ = ctx.call("StopgapMotl.write_out", m.write_out, path, _fl(case, upd), _fl(case, reset))
         if ok and upd:
             w = O.cmp_positions_updated(O.em_fields(m.df), E, "exact")
             ctx.check("update_coord", w is None, dict(w, stage="object after write_out(update_coord=True)") if w else None)
@@ -601,7 +714,7 @@ def _export_via_route(ctx, case, t, E, path):
             src = os.path.join(ctx.scratch, "in_%d.em" % case["i"])
             arr = np.stack([t[c].to_numpy(dtype=np.float64) for c in CANON])[:, :, None]      # [field, particle, 0]
             files.write_em_raw(src, arr, code=5)
-        ok, m = ctx.call("emmotl2stopgap", cm.emmotl2stopgap, src, path, upd, reset)
+        ok, m = ctx.call("emmotl2stopgap", cm.emmotl2stopgap, src, path, _fl(case, upd), _fl(case, reset))
         if isinstance(src, str):
             _rm(src)
         if not ok:
@@ -638,7 +751,7 @@ def _returned_object(ctx, conv_name, conv, src, path, case, E, src_kind):
     integral, |shift| <= 0.5).  A written file is judged as well."""
     upd, reset = case["upd"], case["reset"]
     stage = "%s(%s, %s, update_coordinates=%s)" % (conv_name, src_kind, "path" if path else "None", upd)
-    ok, m = ctx.call("%s(%s)" % (conv_name, "path" if path else "None"), conv, src, path, upd, reset)
+    ok, m = ctx.call("%s(%s)" % (conv_name, "path" if path else "None"), conv, src, path, _fl(case, upd), _fl(case, reset))
     if not ok:
         return
     G = O.em_fields(getattr(m, "df", None)) if isinstance(getattr(m, "df", None), pd.DataFrame) else None
@@ -653,7 +766,7 @@ def _returned_object(ctx, conv_name, conv, src, path, case, E, src_kind):
             ctx.check("star_fields", False, {"what": "no file written", "route": stage})
         _rm(path)
     elif hasattr(m, "write_out"):
-        _direct_write_out(ctx, m, E, upd, reset, "%s_%s" % (conv_name, case["i"]), stage)
+        _direct_write_out(ctx, m, E, upd, reset, "%s_%s" % (conv_name, case["i"]), stage, case)
 
 
 def _converter_matrix(ctx, case, t, E, rng):
@@ -661,7 +774,7 @@ def _converter_matrix(ctx, case, t, E, rng):
     case's stratified flags, so every (update, path) combination of both converters is produced in every run."""
     cm = ctx.cm
     k = (case["i"] // (4 * len(CLASSES))) if isinstance(case["i"], int) else int(rng.integers(0, 4))
-    p1 = os.path.join(ctx.scratch, "conv_%s.star" % case["i"])
+    p1 = _path(ctx, case, rng, "conv")
     # emmotl2stopgap always in memory here (the file form is one of the entry routes); relion2stopgap alternates
     if rng.random() < 0.5:
         src, kind = t, "df"
@@ -682,7 +795,7 @@ def _converter_matrix(ctx, case, t, E, rng):
 
 
 def _standard(ctx, case, t, E, rng):
-    path = os.path.join(ctx.scratch, "sg_%s.star" % case["i"])
+    path = _path(ctx, case, rng, "sg")
     _inmem(ctx, case, t, E, rng)
     _converter_matrix(ctx, case, t, E, rng)
     if _export_via_route(ctx, case, t, E, path):
@@ -737,13 +850,13 @@ def _foreign(ctx, case, t, E, rng):
         if not _judge(ctx, "converters", E2, E, False, "exact", stage=fo["loader"] + ".df"):
             return
     # second generation: the list the object now holds is the reference (exact in memory)
-    ok, sg = ctx.call("convert_to_sg_motl(obj.df)", cm.StopgapMotl.convert_to_sg_motl, m.df, case["reset"])
+    ok, sg = ctx.call("convert_to_sg_motl(obj.df)", cm.StopgapMotl.convert_to_sg_motl, m.df, _fl(case, case["reset"]))
     if ok:
         ok, back = ctx.call("StopgapMotl(sg_df)", cm.StopgapMotl, sg)
         if ok:
             _judge(ctx, "inmem_roundtrip", O.em_fields(back.df), E2, False, "exact", stage="foreign -> df -> sg -> df")
-    p2 = os.path.join(ctx.scratch, "sg_%s.star" % case["i"])
-    ok, _ = ctx.call("StopgapMotl.write_out", m.write_out, p2, case["upd"], case["reset"])
+    p2 = _path(ctx, case, rng, "sg")
+    ok, _ = ctx.call("StopgapMotl.write_out", m.write_out, p2, _fl(case, case["upd"]), _fl(case, case["reset"]))
     if ok and os.path.exists(p2):
         _check_file(ctx, p2, E2, case["upd"], case["reset"], case["route"])
         _reload(ctx, case, p2, E2, case["upd"])
@@ -778,20 +891,20 @@ def _history(ctx, case, t, E, rng):
     path = os.path.join(ctx.scratch, "hist_%s.star" % case["i"])
     A = t                                                   # caller-owned table, handed over WITHOUT copying
     # step 1
-    ok, sg1 = ctx.call("convert_to_sg_motl(A)", cm.StopgapMotl.convert_to_sg_motl, A, reset)
+    ok, sg1 = ctx.call("convert_to_sg_motl(A)", cm.StopgapMotl.convert_to_sg_motl, A, _fl(case, reset))
     if ok:
         w = _judge_sg_frame(sg1, E, reset)
         ctx.check("inmem_roundtrip", w is None, dict(w, stage="history step 1: convert_to_sg_motl(A)") if w else None)
     ok, m = ctx.call("StopgapMotl(A)", cm.StopgapMotl, A)
     if not ok:
         return
-    ok, _ = ctx.call("StopgapMotl.write_out", m.write_out, path, False, reset)
+    ok, _ = ctx.call("StopgapMotl.write_out", m.write_out, path, _fl(case, False), _fl(case, reset))
     if ok and os.path.exists(path):
         _check_file(ctx, path, E, False, reset, "history step 1: StopgapMotl(A).write_out")
     # step 2: A modified in place; the static converter sees the new values, the object built before keeps its own list
     _mutate_in_place(A, rng)
     EA = O.em_fields(A)
-    ok, sg2 = ctx.call("convert_to_sg_motl(A)", cm.StopgapMotl.convert_to_sg_motl, A, not reset)
+    ok, sg2 = ctx.call("convert_to_sg_motl(A)", cm.StopgapMotl.convert_to_sg_motl, A, _fl(case, not reset))
     if ok:
         w = _judge_sg_frame(sg2, EA, not reset)
         ctx.check("inmem_roundtrip", w is None, dict(w, stage="history step 2: convert_to_sg_motl(A) after A was modified in place") if w else None)
@@ -799,7 +912,7 @@ def _history(ctx, case, t, E, rng):
     # ... then the object's own list is modified in place and exported again, with the other flags
     _mutate_in_place(m.df, rng)
     Em = O.em_fields(m.df)
-    ok, _ = ctx.call("StopgapMotl.write_out", m.write_out, path, upd, not reset)
+    ok, _ = ctx.call("StopgapMotl.write_out", m.write_out, path, _fl(case, upd), _fl(case, not reset))
     if ok and os.path.exists(path):
         _check_file(ctx, path, Em, upd, not reset, "history step 2: write_out after obj.df was modified in place")
         _reload(ctx, case, path, Em, upd)
@@ -817,12 +930,67 @@ def _history(ctx, case, t, E, rng):
             if kind in (1, 2):
                 _mutate_in_place(S, rng)
             Enow = O.em_fields(m2.df)              # the list the object holds NOW is what it has to export
-            ok, _ = ctx.call("StopgapMotl.write_out", m2.write_out, path, upd, reset)
+            ok, _ = ctx.call("StopgapMotl.write_out", m2.write_out, path, _fl(case, upd), _fl(case, reset))
             if ok and os.path.exists(path) and Enow is not None:
                 _check_file(ctx, path, Enow, upd, reset, "history step 3: write_out after the source frame S was modified in place")
             # and the modified S itself converts to what it holds now
             _direct_import(ctx, S, O.sg_fields(S), "inmem_roundtrip", "exact", "history step 3: convert_to_motl(S modified)", kw=True)
     _rm(path)
+
+
+def _chained(ctx, case, t, E, rng):
+    """FLOW between the anchor functions: the very objects one of them returned are fed into the next one - a table derived
+    from a loaded list with its columns permuted (attrs and extra attributes carried along), the frame read_in returned, the
+    EmMotl stopgap2emmotl returned - and judged like fresh inputs holding the same values."""
+    cm = ctx.cm
+    reset, upd = case["reset"], case["upd"]
+    p1 = _path(ctx, case, rng, "chain1")
+    ok, m = ctx.call("StopgapMotl(df)", cm.StopgapMotl, t)
+    if not ok:
+        return
+    ok, _ = ctx.call("StopgapMotl.write_out", m.write_out, p1, _fl(case, False), _fl(case, reset))
+    if not (ok and os.path.exists(p1)):
+        return
+    _check_file(ctx, p1, E, False, reset, "chain step 1: write_out")
+    ok, L = ctx.call("StopgapMotl(path)", cm.StopgapMotl, p1)
+    ok2, frame = ctx.call("StopgapMotl.read_in(path)", cm.StopgapMotl.read_in, p1)
+    _rm(p1)
+    if not ok:
+        return
+    EL = O.em_fields(L.df)
+    if not _judge(ctx, "star_reload", EL, E, False, "star", loader="chain step 2: StopgapMotl(path)"):
+        return
+    # (a) a table derived from the loaded list: columns permuted, attrs set, the loader's object decorated
+    cols = [L.df.columns[k] for k in rng.permutation(len(L.df.columns))]
+    t2 = L.df[cols]
+    t2.attrs = {"derived_from": "loaded", "n": len(t2)}
+    L.note = "decorated"
+    src = t2
+    kind = int(rng.integers(0, 3))
+    if kind == 1:
+        ok, src = ctx.call("stopgap2emmotl(StopgapMotl)", cm.stopgap2emmotl, L)      # the EmMotl another anchor returns
+        if not ok:
+            return
+        _judge(ctx, "converters", O.em_fields(src.df), EL, False, "exact", stage="chain: stopgap2emmotl(loaded object)")
+    elif kind == 2:
+        src = L.df                                                                   # the loader's own table, not a copy
+    p2 = _path(ctx, case, rng, "chain2")
+    _returned_object(ctx, "emmotl2stopgap", cm.emmotl2stopgap, src, p2 if case["i"] % 2 else None, case, EL,
+                     ["derived table", "EmMotl from stopgap2emmotl", "loaded .df"][kind])
+    # (b) the frame read_in returned (STOPGAP form), columns permuted -> object -> exported unedited
+    if ok2 and isinstance(frame, pd.DataFrame):
+        f2 = frame[[frame.columns[k] for k in rng.permutation(len(frame.columns))]]
+        f2.attrs = {"specifier": "data_stopgap_motivelist"}
+        ok, m3 = ctx.call("StopgapMotl(sg_df)", cm.StopgapMotl, f2)
+        if ok:
+            E3 = O.em_fields(m3.df)
+            if _judge(ctx, "inmem_roundtrip", E3, EL, False, "exact", stage="chain: StopgapMotl(read_in frame, permuted)"):
+                p3 = _path(ctx, case, rng, "chain3")
+                ok, _ = ctx.call("StopgapMotl.write_out", m3.write_out, p3, _fl(case, upd), _fl(case, not reset))
+                if ok and os.path.exists(p3):
+                    _check_file(ctx, p3, E3, upd, not reset, "chain: read_in frame -> object -> write_out")
+                    _reload(ctx, case, p3, E3, upd)
+                _rm(p3)
 
 
 def _filtered_object(ctx, case, t, E, rng):
@@ -836,7 +1004,7 @@ def _filtered_object(ctx, case, t, E, rng):
         keep = np.sort(rng.choice(n, max(1, int(rng.integers(1, n + 1))), replace=False)) if rng.random() < 0.5 else rng.permutation(n)
         sub = t.iloc[keep]
         Es = O.em_fields(sub)
-        ok, sg = ctx.call("convert_to_sg_motl(df.iloc[subset])", cm.StopgapMotl.convert_to_sg_motl, sub, case["reset"])
+        ok, sg = ctx.call("convert_to_sg_motl(df.iloc[subset])", cm.StopgapMotl.convert_to_sg_motl, sub, _fl(case, case["reset"]))
         if ok:
             ok, back = ctx.call("StopgapMotl(sg_df)", cm.StopgapMotl, sg)
             if ok:
@@ -872,7 +1040,7 @@ def _filtered_object(ctx, case, t, E, rng):
     if Es is None or len(Es["score"]) < 1:
         ctx.ood("star_fields")
         return
-    ok, _ = ctx.call("StopgapMotl.write_out", m.write_out, path, case["upd"], case["reset"])
+    ok, _ = ctx.call("StopgapMotl.write_out", m.write_out, path, _fl(case, case["upd"]), _fl(case, case["reset"]))
     if ok and os.path.exists(path):
         _check_file(ctx, path, Es, case["upd"], case["reset"], case["route"])
         _reload(ctx, case, path, Es, case["upd"])
@@ -891,6 +1059,8 @@ def run_case(ctx, case):
         _filtered_object(ctx, case, t, E, rng)
     elif case["cls"] == "mutation_history":
         _history(ctx, case, t, E, rng)
+    elif case["cls"] == "chained_objects":
+        _chained(ctx, case, t, E, rng)
     else:
         _standard(ctx, case, t, E, rng)
     if case["i"] % 16 == 5:          # reach the .em branch of StopgapMotl.write_out; what it writes is C01's subject
@@ -914,7 +1084,8 @@ def extra(ctx):
             rng = ctx.rng(10 ** 6 + n, cfg)
             df = gens.motl_table(rng, n, tomos=2, signed=True)
             df["subtomo_id"] = _ids(rng, n, "sparse").astype(float)
-            case = {"i": "x%d_%d" % (n, cfg), "cls": "exhaustive", "route": ROUTES[0], "reset": bool(cfg & 1), "upd": bool(cfg & 2)}
+            case = {"i": "x%d_%d" % (n, cfg), "cls": "exhaustive", "route": ROUTES[0], "reset": bool(cfg & 1), "upd": bool(cfg & 2),
+                    "flag_kind": ["py", "np"][(n + cfg // 2) % 2]}
             E = O.em_fields(df)
             path = os.path.join(ctx.scratch, "x.star")
             if _export_via_route(ctx, case, df, E, path) and os.path.exists(path):
@@ -924,7 +1095,7 @@ def extra(ctx):
                     _judge(ctx, "star_reload", O.em_fields(back.df), E, case["upd"], "star", 1.0 if case["upd"] else 2.0, loader="exhaustive")
             _rm(path)
             _returned_object(ctx, "emmotl2stopgap", ctx.cm.emmotl2stopgap, df, None, case, E, "df")
-            ok, sg = _direct_export(ctx, df, case["reset"], kw=bool(cfg & 2))
+            ok, sg = _direct_export(ctx, df, _fl(case, case["reset"]), kw=bool(cfg & 2))
             if ok:
                 _direct_import(ctx, sg, E, "inmem_roundtrip", "exact", "exhaustive: convert_to_motl(convert_to_sg_motl(df))", kw=bool(cfg & 1))
             cnt += 1
